@@ -442,6 +442,14 @@ def rule_when(ctx: Ctx):
     for n_ in own_nodes(be.node):
         if isinstance(n_, ast.Raise) and n_.exc is not None:
             raised.add(show(n_.exc.func) if isinstance(n_.exc, ast.Call) else show(n_.exc))
+    # `raise _helper(node)`: a helper that builds the exception stands for the classes it returns
+    for r_ in sorted(raised):
+        hf = ctx.p.find_fn(r_) if r_ not in ctx.p.classes else None
+        if hf is not None and not isinstance(hf.node, ast.Lambda):
+            rets = {show(x_.value.func) for x_ in own_nodes(hf.node) if isinstance(x_, ast.Return) and isinstance(x_.value, ast.Call)}
+            if rets:
+                raised.discard(r_)
+                raised |= rets
     caught = set()
     for n_ in [x_ for c_fn, _n, _h in callers for x_ in own_nodes(c_fn.node)]:
         if isinstance(n_, ast.Try) and any(isinstance(c_, ast.Call) and show(c_.func) == "parse_boolean_expr" for b_ in n_.body for c_ in ast.walk(b_)):
